@@ -9,6 +9,7 @@ package main
 
 import (
 	"bytes"
+	"errors"
 	"fmt"
 	"io"
 	"net/http"
@@ -26,10 +27,12 @@ import (
 	"verif/vlib"
 )
 
+var errInjected = errors.New("injected read fault (verif)")
+
 func main() { vlib.Run("C30", run) }
 
 func run(c *vlib.Ctx) {
-	c.Rule("case = one file (size 0..2MiB biased to 0/1/2/chunk multiples; balanced|trickle, chunk 1..256KiB, fan-out 2..174, raw|pb leaves, CIDv0|1, optional mtime; optionally reached through a directory path or with ?filename=) + 8..16 requests (5..8 for files > 300 kB), each sent as GET and HEAD through handler.ServeHTTP; Range strings come from a grammar (single, suffix, open-ended, multi, overlapping, unsatisfiable, sum>size, offsets 0/1/size-1/size/size+1/2^62, OWS, empty list members, malformed) x If-Range (current ETag, weak, other, date) x If-None-Match x If-Modified-Since. Strata clean-* reject every request that has a trigger feature of a listed finding (first range != final range while the reader is pre-seeked; first range a suffix longer than the file); stratum hostile is unconstrained; stratum wire sends clean requests over a real loopback httptest.Server. distinct = FNV of file spec + request list + observed responses; non-trivial = file DAG has >= 2 levels and the case byte-verified at least one 206 with non-zero start, one full 200 and one 416 or 304")
+	c.Rule("case = one file (size 0..2MiB biased to 0/1/2/chunk multiples; balanced|trickle, chunk 1..256KiB, fan-out 2..174, raw|pb leaves, CIDv0|1, optional mtime; optionally reached through a directory path or with ?filename=) + 8..16 requests (5..8 for files > 300 kB), each sent as GET and HEAD through handler.ServeHTTP; Range strings come from a grammar (single, suffix, open-ended, multi, overlapping, unsatisfiable, sum>size, offsets 0/1/size-1/size/size+1/2^62, OWS, empty list members, malformed) x If-Range (current ETag, weak, other, date) x If-None-Match x If-Modified-Since. Strata clean-* reject every request that has a trigger feature of a listed finding (first range != final range while the reader is pre-seeked; first range a suffix longer than the file); stratum hostile is unconstrained; stratum wire sends clean requests over a real loopback httptest.Server. Fault step (multi-block files): one read of the leaf holding the start of the served range fails once while a range is requested whose served member is or is not the first one; 5xx or a body cut short is accepted, a 2xx must still match the file. distinct = FNV of file spec + request list + observed responses; non-trivial = file DAG has >= 2 levels and the case byte-verified at least one 206 with non-zero start, one full 200 and one 416 or 304")
 	c.Cases("clean-single", c.N(48, 500), func(k *vlib.Case) { oneCase(k, modeSingle) })
 	c.Cases("clean-multi", c.N(40, 400), func(k *vlib.Case) { oneCase(k, modeMulti) })
 	c.Cases("clean-cond", c.N(32, 300), func(k *vlib.Case) { oneCase(k, modeCond) })
@@ -442,6 +445,7 @@ type world struct {
 
 	saw206, saw200, sawOther bool
 	once                     map[string]bool
+	faulty                   bool // a read fault is injected for the current request
 }
 
 func fileSize(r *vlib.Rand) int {
@@ -465,7 +469,7 @@ func fileSize(r *vlib.Rand) int {
 
 func oneCase(k *vlib.Case, mode int) {
 	r := k.R
-	env := ufsgen.NewEnv()
+	env := ufsgen.NewEnvCtx() // reads under a done context fail; reads can be made to fail by injection
 	n := fileSize(r)
 	if mode == modeWire && n > 300_000 {
 		n = r.Range(0, 300_000)
@@ -565,6 +569,59 @@ func oneCase(k *vlib.Case, mode int) {
 			if g.code != h.code || g.hdr.Get("Content-Range") != h.hdr.Get("Content-Range") ||
 				((g.code == 200 || g.code == 206) && g.hdr.Get("Content-Length") != h.hdr.Get("Content-Length")) {
 				k.Fail("head-get-differ", "HEAD headers == GET headers", "GET "+g.summary(), "HEAD "+h.summary()+" for "+rq.String())
+			}
+		}
+	}
+	// Fault step: one read of the leaf that holds the start of the served range
+	// (or of a random leaf) fails once. A 5xx answer or a body cut short is
+	// fine then; a 2xx answer must still be right in headers and bytes.
+	if st.Depth >= 2 && mode != modeWire && !k.C.Aborted() {
+		spans, _, err := env.FileSpans(fe.Cid)
+		if err != nil {
+			panic(err)
+		}
+		var leaves []ufsgen.NodeSpan
+		for _, sp := range spans {
+			if sp.Leaf && sp.E > sp.S && !sp.Cid.Equals(fe.Cid) {
+				leaves = append(leaves, sp)
+			}
+		}
+		for i := 0; i < 3 && len(leaves) > 0; i++ {
+			lf := leaves[r.Intn(len(leaves))]
+			a := lf.S + int64(r.Intn(int(lf.E-lf.S)))
+			b := a + int64(r.Intn(40))
+			rq := &request{hasRange: true}
+			switch r.Intn(4) {
+			case 0, 1: // the served range is not the first member
+				rq.rng = fmt.Sprintf("bytes=%d-,%d-%d", int64(n)+int64(r.Intn(1000)), a, b)
+			case 2:
+				rq.rng = fmt.Sprintf("bytes=%d-%d", a, b)
+			default:
+				rq.rng = fmt.Sprintf("bytes=%d-", a)
+			}
+			target := lf
+			if r.Chance(1, 4) {
+				target = leaves[r.Intn(len(leaves))]
+			}
+			skip := 0
+			if r.Chance(1, 4) {
+				skip = 1
+			}
+			k.Logf("fault: read #%d of leaf %s (bytes [%d,%d)) fails once; GET %s", skip+1, target.Cid, target.S, target.E, rq)
+			env.SetFaultN(target.Cid, errInjected, skip, 1)
+			w.faulty = true
+			resp := w.do("GET", rq)
+			fired := env.FaultsFired()
+			w.faulty = false
+			env.ClearFaults()
+			k.Logf("  -> %s (injected failures: %d)", resp.summary(), fired)
+			w.faulty = fired > 0
+			w.judge("GET", rq, resp)
+			w.faulty = false
+			k.C.Count("fault_requests", 1)
+			if fired > 0 {
+				k.C.Count("fault_requests_where_the_fault_fired", 1)
+				k.C.Count(fmt.Sprintf("fault_status_%d", resp.code), 1)
 			}
 		}
 	}
@@ -688,6 +745,9 @@ func (w *world) judge(method string, rq *request, p *response) (ok bool) {
 	case f.hasRange:
 		feat = "single-range"
 	}
+	if w.faulty {
+		feat = "read-fault/" + feat
+	}
 	fail := func(clause, expected, observed string) {
 		ok = false
 		// one record per class and case (repeats are counted): the per-case cap
@@ -747,6 +807,10 @@ func (w *world) judge(method string, rq *request, p *response) (ok bool) {
 			return
 		}
 		want := w.file[a : b+1]
+		if w.faulty && len(p.body) < len(want) && bytes.Equal(p.body, want[:len(p.body)]) {
+			k.C.Count("fault_body_cut_short", 1) // the read failed mid-body: acceptable
+			return
+		}
 		if bytes.Equal(p.body, want) {
 			k.C.Count("body_bytes_verified", int64(len(want)))
 			return
@@ -857,6 +921,10 @@ func (w *world) judge(method string, rq *request, p *response) (ok bool) {
 			fail("status-400", "no 4xx for a syntactically valid request", "400")
 		}
 	default:
+		if w.faulty && p.code >= 500 {
+			k.C.Count("fault_answered_5xx", 1)
+			break
+		}
 		fail(fmt.Sprintf("status-%d", p.code), "one of 200 206 304 400 416", strconv.Itoa(p.code))
 	}
 	if p.wire && (p.code == 200 || p.code == 206) && method == "GET" && p.wireCL != int64(len(p.body)) {
